@@ -1098,6 +1098,18 @@ class SymClient(Client):
                 if self.field_event is not None and self.field_event(base, t.attr):
                     s = self.emit(s, Event('setfield', base + '.' + t.attr, (term,), (), (), self.site_line or t.lineno, s.conds, self.f.key))
                 return s.set_field(base, t.attr, term)
+            # a local that was bound to this very field before (``sock = self.dul_socket`` ... ``self.dul_socket = None``) goes on
+            # holding the old value: what the path knew of the field (true / not None, or None) is from now on known of the
+            # local, under marks of its own, and the local is noted as holding a value the field no longer has
+            path_ = base + '.' + t.attr
+            if term != path_:
+                for n_, v_ in list(s.env):
+                    if v_ == path_ and not n_.startswith(('?', '$')):
+                        if any(c_ in ('+' + path_, '-not ' + path_, '+%s is not None' % path_, '-%s is None' % path_) for c_ in s.conds):
+                            s = s.set('?n:' + n_, '-').set('?t:' + n_, '+')
+                        elif any(c_ in ('+%s is None' % path_, '-%s is not None' % path_) for c_ in s.conds):
+                            s = s.set('?n:' + n_, '+').set('?t:' + n_, '-')
+                        s = s.set('$stale:' + n_, path_).add_cond('old:%s=%s' % (n_, path_))
             # write through a non-local object: record as event-free store on a pseudo token
             return s.set_field('EXT:' + base, t.attr, term)
         if isinstance(t, ast.Subscript):
